@@ -40,12 +40,13 @@ Definition join_raw (base id : list N) : list N :=
 Definition PATH_MAX : N := 4096.
 
 (* stat(base.join(id)); base is the absolute blobs path as a byte string *)
+Definition resolve_raw (f : fs) (raw : list N) : wres :=
+  if has_nul raw || (PATH_MAX <=? nlen raw) then WFail
+  else fold_left (walk_step f) (split_on 47 raw) (WAt [] Dir).
 Definition resolve (f : fs) (base id : list N) : wres :=
-  let raw := join_raw base id in
-  match raw with
+  match join_raw base id with
   | [] => WFail
-  | _ => if has_nul raw || (PATH_MAX <=? nlen raw) then WFail
-         else fold_left (walk_step f) (split_on 47 raw) (WAt [] Dir)
+  | _ => resolve_raw f (join_raw base id)
   end.
 
 Definition is_file_at (f : fs) (base id : list N) : bool :=
@@ -74,6 +75,12 @@ Definition guard_eval (g : aguard) (f : fs) (base id : list N) : bool :=
   | GNonEmptyExists => nonempty id && exists_at f base id
   | GExists => exists_at f base id
   end.
+
+(* an id that is ONE plain name: not empty, no separator, not "." / ".." - the shape of every id rip draws itself
+   (64 hex digits) and the repair proposed for finding S30 *)
+Definition plain (id : list N) : bool :=
+  nonempty id && negb (existsb (N.eqb 47) id) && negb (seg_dot id) && negb (seg_dotdot id).
+Definition guard_plain (f : fs) (base id : list N) : bool := plain id && is_file_at f base id.
 
 (* the guards under which an accepted id can be read back (proved: ArtGuardProofs.guard_sound_resolves) *)
 Definition guard_sound (g : aguard) : bool :=
